@@ -696,3 +696,28 @@ func (e *Engine) structFields(ss *StructShape) ([]string, error) {
 	}
 	return nil, fmt.Errorf("type %s not found", ss.Type)
 }
+
+// atomicAction: a call to a method of the store or Lightning interfaces - one
+// atomic step as far as the rely/guarantee tier is concerned.
+func (e *Engine) atomicAction(key string) bool {
+	return strings.HasPrefix(key, "("+modulePath+"/mint/storage.MintDB).") || strings.HasPrefix(key, "("+modulePath+"/mint/lightning.Client).")
+}
+
+// touchesStore: the callee (transitively) performs atomic actions.
+func (e *Engine) touchesStore(key string, con *FnContract) bool {
+	for _, m := range e.modSet(key, con) {
+		if strings.HasPrefix(m, "db.") || strings.HasPrefix(m, "ln.") {
+			return true
+		}
+	}
+	return false
+}
+
+func (e *Engine) pkgOf(path string) *types.Package {
+	for _, p := range e.prog.AllPackages() {
+		if p.Pkg.Path() == path {
+			return p.Pkg
+		}
+	}
+	return nil
+}
